@@ -513,6 +513,13 @@ func gcPolicy() {
 // idle, so that 16 shards of a check with large transient states stay far below the machine's
 // memory.
 func trimHeap() {
+	switch os.Getenv("VERIF_GC_BETWEEN_RUNS") { // experiment switch (determinism follow-ups)
+	case "always":
+		runtime.GC()
+		return
+	case "never":
+		return
+	}
 	metrics.Read(heapSample)
 	if heapSample[2].Value.Uint64() > 128<<20 {
 		runtime.GC()
